@@ -3,7 +3,7 @@ PROPERTY = 'C12'
 
 
 def plan(tier, seed):
-    nk, nb, nc, ns, nm = 21, 19, 11, 6, 12
+    nk, nb, nc, ns, nm = 21, 21, 11, 6, 12
     units = []
     q = tier == 'quick'
     for ki in range(nk):
@@ -33,5 +33,5 @@ def plan(tier, seed):
                         'sizing': 'six sizing prefixes x symbolic single-character delimiter in ( ) < > [ ] . | and the 12 multi-character delimiters',
                         'contexts': 'top, between text, env body, item, brace argument, group, env with bracket argument, directly after / before a line break',
                         'adjacent': '%d ordered pairs of kinds' % len(pairs)},
-                outside=['[ or { directly (or behind blanks) after an ordinary or sizing command', '$..$ directly followed by another $', 'bodies outside the templates'],
+                outside=['[ or { directly (or behind blanks) after an argument-less ordinary command or a sizing command (behind blanks after a command that has its brace arguments it is inside: bodies 19, 20)', '$..$ directly followed by another $', 'bodies outside the templates'],
                 assumptions=[])
